@@ -294,6 +294,7 @@ def gen_cases(rng, tier):
         p = "".join(rng.choice(SEED_ALPHABET) for _ in range(rng.randrange(0, 12)))
         out.append(case("seed-random", "to_seed", m, p))
     out.extend(gen_cli_cases(rng, tier))
+    out.extend(gen_combo_cases(rng, tier))
     return out
 
 
@@ -538,6 +539,8 @@ def _sanitised(text):
 
 def _model_call_cli(c):
     op, a = c["op"], c["args"]
+    if op == "cli_combo":
+        op, a = _combo_equiv(c)
     if op == "cli_from_entropy":
         return "c10_calculate_mnemonic_phrase", [a[0]]
     if op == "cli_to_entropy":
@@ -573,8 +576,11 @@ def ref_master_xprv(seed: bytes, network, print_) -> bytes:
 
 def canon(c, v):
     # the model answers cli_to_master_key with the SEED; the expected key is derived from it here
-    if c["op"] == "cli_to_master_key" and isinstance(v, (bytes, bytearray)) and len(v) == 64:
-        return ref_master_xprv(bytes(v), c["args"][2], c["args"][3])
+    op, a = c["op"], c["args"]
+    if op == "cli_combo" and a[0] == "to-master-key":
+        op, a = _combo_equiv(c)
+    if op == "cli_to_master_key" and isinstance(v, (bytes, bytearray)) and len(v) == 64:
+        return ref_master_xprv(bytes(v), a[2], a[3])
     return v
 
 
@@ -644,6 +650,8 @@ def _cli_prop_oracle(c):
     composition evaluated in this same worker)"""
     op, a = c["op"], c["args"]
     r = _try(IMPL[op], *a)
+    if op == "cli_combo":       # judged like the single-mode command it must behave like
+        op, a = _combo_equiv(c)
     got = r[1] if r[0] == "ok" else None
     if r[0] == "ok" and isinstance(got, tuple):
         return "command line: %s" % (got,)
@@ -686,6 +694,213 @@ def _cli_prop_oracle(c):
             return "master key is not the BIP32 master key of the BIP39 seed"
         return None
     return "unknown op"
+
+
+# ----------------------------------------------------------------------------------------------
+# option COMBINATIONS of `bits mnemonic`: every mode crossed with the options that belong to another mode.
+#   cli_combo(mode, data, passphrase, opts)
+#     mode        "from-entropy" | "to-entropy" | "to-seed" | "to-master-key" | "generate"
+#     data        entropy bytes (from-entropy) | mnemonic text (to-*) | tag bytes of the token_bytes stub (generate)
+#     passphrase  what getpass returns (to-seed / to-master-key), else None
+#     opts        the other options, blank-separated; the token MODE marks where the mode flag goes (default: first)
+# The expected value is the MODEL of the mode actually selected: an option that belongs to another mode (valid
+# spelling and value) must not change the result.  Only the options a mode really has influence its model call:
+# -1 (from-entropy: how the entropy is written to stdin), -0 (to-entropy / to-seed), -N and -P (to-master-key),
+# -S (generate).
+# ----------------------------------------------------------------------------------------------
+_MODE_FLAG = {"from-entropy": "--from-entropy", "to-entropy": "--to-entropy", "to-seed": "--to-seed",
+              "to-master-key": "--to-master-key", "generate": None}
+
+
+def _parse_opts(opts):
+    """the blank-separated option string -> (argv tokens without MODE, position of MODE or None, settings)"""
+    toks = opts.split()
+    st = {"fin": None, "fout": None, "S": None, "net": None, "print": False}
+    argv, pos, i = [], None, 0
+    while i < len(toks):
+        t = toks[i]
+        nxt = toks[i + 1] if i + 1 < len(toks) else None
+        if t == "MODE":
+            pos = len(argv)
+            i += 1
+            continue
+        argv.append(t)
+        i += 1
+        if t in ("-1", "--input-format", "-0", "--output-format"):
+            key = "fin" if t in ("-1", "--input-format") else "fout"
+            if nxt in ("raw", "hex", "x", "bin", "b"):
+                st[key] = nxt
+                argv.append(nxt)
+                i += 1
+            else:
+                st[key] = ""
+        elif t in ("-S", "--strength"):
+            st["S"] = int(nxt)
+            argv.append(nxt)
+            i += 1
+        elif t.startswith("--strength="):
+            st["S"] = int(t.split("=", 1)[1])
+        elif t in ("-N", "--network"):
+            st["net"] = nxt
+            argv.append(nxt)
+            i += 1
+        elif t in ("-P", "--print"):
+            st["print"] = True
+        else:
+            raise ValueError("c10 harness: unknown option token %r" % t)
+    return argv, pos, st
+
+
+def _combo_argv(mode, opts):
+    argv, pos, st = _parse_opts(opts)
+    flag = _MODE_FLAG[mode]
+    if flag is not None:
+        pos = 0 if pos is None else pos
+        argv = argv[:pos] + [flag] + argv[pos:]
+    return argv, st
+
+
+def _cli_combo(mode, data, passphrase, opts):
+    argv, st = _combo_argv(mode, opts)
+    if mode == "from-entropy":
+        r = _run_cli(argv, _encode_in(data, _FMT[st["fin"]]))
+        bad = _refusal(r)
+        if bad:
+            return bad
+        t = r["out"].decode("utf-8", "replace")
+        return t[:-1] if t.endswith("\n") else ("malformed output", bytes(r["out"]))
+    if mode == "to-entropy":
+        r = _run_cli(argv, data.encode("utf-8"))
+        return _refusal(r) or _decode_out(r["out"], _FMT[st["fout"]])
+    if mode == "to-seed":
+        r = _run_cli(argv, data.encode("utf-8"), getpass=passphrase)
+        return _refusal(r) or _decode_out(r["out"], _FMT[st["fout"]])
+    if mode == "to-master-key":
+        r = _run_cli(argv, data.encode("utf-8"), getpass=passphrase)
+        return _refusal(r) or bytes(r["out"])
+    if mode == "generate":
+        calls = []
+
+        def token_bytes(nbytes=None):
+            calls.append(nbytes)
+            return _stub_entropy(data, 32 if nbytes is None else nbytes)
+        # whatever is on stdin must not be used as entropy
+        r = _run_cli(argv, (bytes(range(32)).hex() + "\n").encode(), stubs={"secrets.token_bytes": token_bytes})
+        bad = _refusal(r)
+        if bad:
+            return bad
+        if len(calls) != 1:
+            return ("secrets.token_bytes called %d times" % len(calls), bytes(r["out"]))
+        t = r["out"].decode("utf-8", "replace")
+        return t[:-1] if t.endswith("\n") else ("malformed output", bytes(r["out"]))
+    raise ValueError("c10 harness: unknown mode %r" % mode)
+
+
+IMPL["cli_combo"] = _cli_combo
+
+
+def _combo_equiv(c):
+    """the single-mode case (op, args) a cli_combo case must behave like"""
+    mode, data, pp, opts = c["args"]
+    _, _, st = _parse_opts(opts)
+    if mode == "from-entropy":
+        return "cli_from_entropy", [data, st["fin"], "stdin"]
+    if mode == "to-entropy":
+        return "cli_to_entropy", [data, st["fout"], "stdin"]
+    if mode == "to-seed":
+        return "cli_to_seed", [data, pp, st["fout"]]
+    if mode == "to-master-key":
+        return "cli_to_master_key", [data, pp, st["net"], st["print"]]
+    return "cli_generate", [st["S"], data]
+
+
+_SVALS = (128, 160, 192, 224, 256)
+_FOREIGN = {   # options that do NOT belong to the mode (valid spellings / values only)
+    "from-entropy": ["-0", "-0 raw", "-0 bin", "-0 x", "-N testnet", "-N regtest", "-N mainnet", "-P", "--print"],
+    "to-entropy": ["-1", "-1 raw", "-1 hex", "-1 bin", "-N testnet", "-N mainnet", "-P"],
+    "to-seed": ["-1", "-1 hex", "-1 b", "-N testnet", "-N regtest", "-P"],
+    "to-master-key": ["-1", "-1 x", "-0", "-0 hex", "-0 bin", "-0 raw"],
+    "generate": ["-1", "-1 hex", "-0", "-0 hex", "-0 bin", "-N testnet", "-N regtest", "-P"],
+}
+_OWN = {       # options the mode does have
+    "from-entropy": [None, "-1", "-1 raw", "-1 hex", "-1 x", "-1 bin", "-1 b"],
+    "to-entropy": [None, "-0", "-0 raw", "-0 hex", "-0 bin", "-0 b"],
+    "to-seed": [None, "-0", "-0 hex", "-0 bin", "-0 x"],
+    "to-master-key": [None, "-N mainnet", "-N testnet", "-N regtest", "-P", "-N testnet -P"],
+    "generate": [None] + ["-S %d" % v for v in _SVALS],
+}
+
+
+def _strength_spellings(rng, S):
+    return rng.choice(["-S %d", "--strength %d", "--strength=%d"]) % S
+
+
+def gen_combo_cases(rng, tier):
+    T = tier == "thorough"
+    out = []
+
+    def mk(cls, mode, data, pp, parts, rng=rng):
+        parts = [x for x in parts if x]
+        # the mode flag first, last, or somewhere in between
+        k = rng.randrange(len(parts) + 1)
+        opts = " ".join(parts[:k] + ["MODE"] + parts[k:])
+        out.append(case(cls, "cli_combo", mode, data, pp, opts))
+
+    # (a) --from-entropy x -S (every value) x entropy equal to / longer / shorter than S/8, valid and invalid sizes
+    for S in _SVALS:
+        n = S // 8
+        lens = {n, 32 if n < 32 else 16, 16 if n > 16 else 20, n + 1, n - 1, n + 4, n - 4, 33, 40, 0}
+        if T:
+            lens |= set(range(0, 41)) | {48, 64}
+        for L in sorted(l for l in lens if l >= 0):
+            cls = "cli-combo-from-entropy-S-" + ("equal" if L == n else ("longer" if L > n else "shorter")) + \
+                  ("" if L in ENT_LENGTHS else "-invalid")
+            own = rng.choice(_OWN["from-entropy"])
+            mk(cls, "from-entropy", rng.randbytes(L), None, [_strength_spellings(rng, S), own])
+    # (b) the text modes x -S (every value), with valid and invalid sentences
+    phrases = {L: _phrase(rng.randbytes(L)) for L in ENT_LENGTHS}
+    for S in _SVALS:
+        for L in (ENT_LENGTHS if T else (S // 8, 32 if S != 256 else 16)):
+            m = phrases[L] + "\n"
+            own = {md: rng.choice(_OWN[md]) for md in ("to-entropy", "to-seed", "to-master-key")}
+            mk("cli-combo-to-entropy-S", "to-entropy", m, None, [_strength_spellings(rng, S), own["to-entropy"]])
+            mk("cli-combo-to-seed-S", "to-seed", m, rng.choice(CLI_PASSPHRASES), [_strength_spellings(rng, S), own["to-seed"]])
+            mk("cli-combo-to-master-key-S", "to-master-key", m, rng.choice(CLI_PASSPHRASES),
+               [_strength_spellings(rng, S), own["to-master-key"]])
+        bad = " ".join(phrases[S // 8].split()[:-1]) + "\n"          # one word short: refused, nothing written
+        mk("cli-combo-to-entropy-S-refused", "to-entropy", bad, None, [_strength_spellings(rng, S), rng.choice(_OWN["to-entropy"])])
+    # (c) every mode x every foreign option (x one of its own options)
+    for mode in _FOREIGN:
+        for f in _FOREIGN[mode]:
+            for own in (_OWN[mode] if T else [rng.choice(_OWN[mode])]):
+                L = rng.choice(ENT_LENGTHS)
+                if mode == "from-entropy":
+                    data, pp = rng.randbytes(L), None
+                elif mode == "generate":
+                    data, pp = rng.randbytes(8), None
+                else:
+                    data = phrases[L] + rng.choice(["", "\n"])
+                    pp = rng.choice(CLI_PASSPHRASES) if mode in ("to-seed", "to-master-key") else None
+                mk("cli-combo-%s-foreign" % mode, mode, data, pp, [f, own])
+        # two foreign options at once, and a refused input with foreign options (must stay refused, nothing written)
+        for _ in range(6 if T else 2):
+            f2 = rng.sample(_FOREIGN[mode], 2)
+            if f2[0].split()[0] == f2[1].split()[0]:
+                f2 = f2[:1]
+            extra = [] if mode == "generate" else [_strength_spellings(rng, rng.choice(_SVALS))]
+            L = rng.choice(ENT_LENGTHS)
+            if mode == "from-entropy":
+                mk("cli-combo-from-entropy-foreign", mode, rng.randbytes(L), None, f2 + extra)
+                mk("cli-combo-from-entropy-refused", mode, rng.randbytes(rng.choice([0, 15, 17, 31, 33, 36, 40])), None, f2 + extra)
+            elif mode == "generate":
+                mk("cli-combo-generate-foreign", mode, rng.randbytes(8), None, f2 + [rng.choice(_OWN[mode])])
+            else:
+                pp = rng.choice(CLI_PASSPHRASES) if mode != "to-entropy" else None
+                mk("cli-combo-%s-foreign" % mode, mode, phrases[L], pp, f2 + extra)
+                if mode == "to-entropy":
+                    ws = phrases[L].split()
+                    mk("cli-combo-to-entropy-refused", mode, " ".join(ws[:-1] + ["zzzz"]), None, f2 + extra)
+    return out
 
 
 # ----------------------------------------------------------------------------------------------
